@@ -452,6 +452,17 @@ class CallMixin:
             if isinstance(v.ty, T.Seq):
                 return v           # np.array(list): the same sequence of values
             raise Unsupported(f"np.array of {v.ty}")
+        if name in ("Counter", "collections.Counter") and len(e.args) == 1 and not e.keywords:
+            # Counter(list): every element that occurs, with its number of occurrences
+            v = self.ev(e.args[0], p)
+            if v.ty == T.EMPTYLIST:
+                return SV(T.EMPTYDICT)
+            if isinstance(v.ty, T.Bag) and v.ty.e.scalar:
+                dom = fresh("counter_dom", z3.ArraySort(v.ty.e.sort(), T.B))
+                x = fresh("x", v.ty.e.sort())
+                self._assume(p, z3.ForAll([x], dom[x] == (v.t[x] >= 1), patterns=[dom[x]]))
+                return T.sv_map(v.ty.e, T.INT, dom, v.t)
+            raise Unsupported(f"Counter of {v.ty}")
         if name in ("LabelEncoder", "preprocessing.LabelEncoder", "sklearn.preprocessing.LabelEncoder") and not e.args and not e.keywords:
             if "LabelEnc" not in self.reg.layouts:
                 raise Unsupported("layout LabelEnc is not registered (label-encoder model)")
@@ -1308,6 +1319,14 @@ class CallMixin:
             inj = z3.ForAll([x, x2], z3.Implies(z3.And(src.t[x] >= 1, c, src.t[x2] >= 1, sub(c, x2), fx.t == sub(fx.t, x2)), x == x2))
             self._assume(p, z3.Implies(inj, z3.ForAll([x], z3.Implies(z3.And(inb, c), r[fx.t] == src.t[x]), patterns=[src.t[x]])))
             self.last_comp_inj = inj
+            if self.cur is not None and "image_counts" in self.cur.options:
+                # a value occurs in the image of a duplicate-free list as often as it has pre-images: r[y] = |{x in src : c(x), f(x) = y}|
+                # (for a list with repeated elements the multiplicities would have to be summed; nothing is stated then)
+                st = T.Set(et)
+                ps = z3.Function(f"preset!{next(T._fresh)}", fx.ty.sort(), st.sort())
+                self._assume(p, z3.ForAll([y, x], ps(y)[x] == z3.And(inb, c, fx.t == y), patterns=[ps(y)[x]]))
+                once = z3.ForAll([x], src.t[x] <= 1, patterns=[src.t[x]])
+                self._assume(p, z3.Implies(once, z3.ForAll([y], r[y] == st.card()(ps(y)), patterns=[r[y]])))
         if not cond_terms:
             self._assume(p, rt.blen()(r) == src.ty.blen()(src.t))
         else:
@@ -1324,6 +1343,20 @@ class CallMixin:
 
     def ev_DictComp(self, e, p):
         target, it, ifs = self._comp_parts(e)
+        if isinstance(target, ast.Tuple) and len(target.elts) == 2 and isinstance(it, ast.Call) and isinstance(it.func, ast.Attribute) and it.func.attr == "items" \
+                and not it.args and isinstance(it.func.value, ast.Attribute) and isinstance(it.func.value.value, ast.Name):
+            # ... for k, v in self._table.items(): the table is read once, under a temporary name
+            tbl = self.ev(it.func.value, p)
+            if isinstance(tbl.ty, T.Map):
+                import copy as _copy
+                tmp = f"__items{e.lineno}_{e.col_offset}"
+                e2 = _copy.deepcopy(e)
+                e2.generators[0].iter.func.value = ast.copy_location(ast.Name(id=tmp, ctx=ast.Load()), it.func.value)
+                p.env[tmp] = tbl
+                try:
+                    return self.ev_DictComp(ast.fix_missing_locations(e2), p)
+                finally:
+                    p.env.pop(tmp, None)
         if isinstance(target, ast.Tuple) and len(target.elts) == 2 and all(isinstance(t, ast.Name) for t in target.elts) \
                 and isinstance(it, ast.Call) and isinstance(it.func, ast.Attribute) and it.func.attr == "items" and not it.args \
                 and isinstance(it.func.value, ast.Name) and isinstance(p.env.get(it.func.value.id, SV(T.NONE)).ty, T.Map):
@@ -1430,14 +1463,25 @@ class CallMixin:
             p.env.update(saved)
         st = T.Set(ety)
         bvs = list(self.bound_vars)
+        # two comprehensions with the same defining formula (over the same state) are the same term: the symbol is looked up by the formula with
+        # the bound variables renamed canonically, so that e.g. a callee's postcondition and the caller's own speak about one set and no
+        # extensionality argument is needed to identify them (the definition is re-assumed on the path at hand: harmless when already there)
+        canon = [z3.Const(f"__sc{i}", v.sort()) for i, v in enumerate(bvs + [x])]
+        body = z3.And(conds)
+        key = (st.name, tuple(v.sort().name() for v in bvs), z3.substitute(body, *zip(bvs + [x], canon)).sexpr())
+        cache = self.__dict__.setdefault("_setcomp_cache", {})
         if bvs:
             # inside a quantifier the set depends on the bound variables: Skolem function of them
-            fn = z3.Function(f"setcomp!{next(T._fresh)}", *[v.sort() for v in bvs], st.sort())
+            fn = cache.get(key)
+            if fn is None:
+                fn = cache[key] = z3.Function(f"setcomp!{next(T._fresh)}", *[v.sort() for v in bvs], st.sort())
             s = fn(*bvs)
-            p.assume(z3.ForAll(bvs + [x], s[x] == z3.And(conds), patterns=[s[x]]))
+            p.assume(z3.ForAll(bvs + [x], s[x] == body, patterns=[s[x]]))
         else:
-            s = fresh("setcomp", st.sort())
-            self._assume(p, z3.ForAll([x], s[x] == z3.And(conds), patterns=[s[x]]))
+            s = cache.get(key)
+            if s is None:
+                s = cache[key] = fresh("setcomp", st.sort())
+            self._assume(p, z3.ForAll([x], s[x] == body, patterns=[s[x]]))
         return T.scalar(st, s)
 
     def ev_GeneratorExp(self, e, p):
